@@ -223,6 +223,18 @@ def stepAll (d : DSt) (toks : List String) : DSt × String :=
       if before.any hasEvent then (d, s!"false event-before-successful-synchronization runs={showStrs runs}")
       else (d, "true")
     | _, _ => (d, "bad-op")
+  | "oracle" :: "op-lock" :: rest =>
+    -- lock state seen while a hook execution was held: `binding:unlocked:syncDone` per binding.
+    -- A binding may be unlocked (its Events flow to the hook) only if a SUCCESSFUL execution that
+    -- carried that binding's own Synchronization has finished.
+    match (kv? "held" rest).map strList with
+    | some obs =>
+      let bad := obs.filter fun o => match o.splitOn ":" with
+        | [_, en, ok] => en == "1" && ok != "1"
+        | _ => true
+      if bad.isEmpty then (d, "true")
+      else (d, s!"false unlocked-before-own-synchronization={showStrs bad}")
+    | none => (d, "bad-op")
   | "oracle" :: "op-group" :: rest =>
     -- group form: the last Group execution's snapshot reflects the final matching state
     match (kv? "last" rest).bind parseCache, (kv? "final" rest).bind parseCache with
